@@ -1,7 +1,63 @@
 (* C09 — Kernel-matrix caches return the true entries and respect their memory bound.
-   Only statements + `exact`; the proofs live in C09Proofs.v, the executable model in C09Model.v. *)
+   Only statements + `exact`/`apply`; the proofs live in the C09*Proofs.v files, the executable models in
+   C09Model.v, C09Derived.v, C09Comp.v, C09More.v (definitions only; all of them are extracted and run next to
+   the C++ on every run of tools/c09.py).
+
+   PROVED (axiom-free, every theorem below prints "Closed under the global context")
+   A. The cache over the free base matrix of id pairs (C09Model.v = LRUCache + CachedMatrix line by line):
+      for every history of row requests of any prefix length, const rows, flips, setMaxCachedIndex, clear,
+      truncations and deletion marks, from an empty cache of any capacity over any matrix size:
+      capacity bound, size accounting = total length of the held lines, LRU list = the cached lines once,
+      every cached cell and every returned row = the true entry under the current variable order, the UB state
+      (back() of an empty list) is unreachable, the previously requested row survives when capacity allows both
+      (C09_every_history_sound ... C09_clear_empties).
+   B. Derived matrices under flips, stated on the ORIGINAL examples and attributes (C09_regularized_matrix_entries
+      ... C09_precomputed_matrix_flip).
+   C. COMPOSITION (C09Comp.v, C09CompProofs.v): CachedMatrix<Matrix> and PrecomputedMatrix<Matrix> over ANY base
+      matrix object that satisfies the laws [flip_aware] (entry after flip(i,j) = entry under the transposition,
+      row = the entries, size and class invariant kept): after every history (any prefix length, sub-range const
+      rows, flips forwarded to the base, index-range restrictions, clears) every cached cell, every returned row
+      and entry() equal the base's ORIGINAL entry function under the COMPOSED permutation [cperm]; same
+      accounting clauses as in A (C09_composed_...).  The const overload row(k,start,end,storage) is shown safe
+      exactly when start <= cached length of line k (otherwise the code writes BEFORE the caller's buffer: the
+      model returns None; all library callers pass start = 0).  PrecomputedMatrix needs only that matrix() of the
+      base state it is constructed from is correct (C09_precomputed_over_base_sound).
+   D. Memory clauses at the CachedMatrix level in the composed setting: getCacheSize/getMaxCacheSize/cachedLines/
+      getCacheRowSize after clear, setMaxCachedIndex (nothing freed, lines outside the range become the first
+      eviction candidates) and flips (lengths travel with the variables) (C09_composed_..._accounting).
+   E. Every class is an instance of the interface (C09_kernel_matrix_classes_are_flip_aware): KernelMatrix,
+      Regularized (row as coded: kernel row patched on the diagonal), Modified (row as coded), ExampleModified
+      (scaling coefficients follow the examples, 729b58f0), BlockMatrix2x2 over any base, Difference, Gaussian;
+      and matrix() is correct for unflipped Kernel/Regularized/Modified states and every state of the others.
+      Worked compositions: CachedMatrix<RegularizedKernelMatrix>, PrecomputedMatrix<DifferenceKernelMatrix>,
+      CachedMatrix<GaussianKernelMatrix> (C09_cached_regularized_matrix_sound, ...).
+   F. New models (C09More.v): createDataFromRange's batch sizes (unequal, differ by one, sum = n), DataView
+      (batch, position) lookups on any batch structure, DifferenceKernelMatrix entries, for the linear kernel =
+      Gram matrix of the difference features, symmetric, positive semi-definite; GaussianKernelMatrix distance
+      formula n_i - 2<x_i,x_j> + n_j = |x_i - x_j|^2 as long as the norms belong to the points, which flips
+      preserve (they swap points AND norms); PartlyPrecomputedMatrix constructor (row count from the cache size
+      in bytes with the integer divisions, runtime check, division by zero for an empty base), memory bound
+      rows * rowBytes <= cacheSize, every entry / row = base entry.
+
+   COMPARED on every run (extracted model = C++, same generated inputs, exact): stream "cache" (A), "derived" (B),
+   "comp" (C, D, E: CachedMatrix<Base>/PrecomputedMatrix<Base> for all seven classes, capacities N, 2N, N^2,
+   equal and unequal batch sizes, sub-range const rows, accounting API), "more" (F, read directly and through
+   the composed cache / precomputed models; exact for Difference and PartlyPrecomputed, exp at 1e-12 for
+   Gaussian: exp is ABSTRACT in the model, instantiated by libm's exp in the driver).
+
+   MONITORED ONLY / NOT PROVED
+   * floating point: all proofs are over Z (integer data make the C++ arithmetic exact); the float instantiation
+     of GaussianKernelMatrix (norms beyond 2^24) is only monitored against direct evaluation.
+   * new[]/delete[] and boost::intrusive::list are modelled, not verified (the list order is compared through
+     listIndex); "no request reads or writes outside its buffers" is the model's err flag / None results plus
+     guard cells in the harness and ASan/UBSan in the thorough tier.
+   * kernels other than the linear one; OpenMP row loops; KernelMatrix::matrix (calculateRegularizedKernelMatrix)
+     is modelled by its result in the ORIGINAL order; it ignores earlier flips (see C09More.v), so
+     PrecomputedMatrix over an already flipped KernelMatrix/Regularized/Modified is outside the theorems.
+   * positive semi-definiteness is proved for the linear kernel only. *)
 From Coq Require Import List Arith.
-From Coq Require Import ZArith.
+From Coq Require Import ZArith Permutation.
+From SharkV Require Import C09Comp C09CompProofs C09More C09InstProofs C09MoreProofs C09ThmProofs.
 From SharkV Require Import ListAux C09Model C09Proofs C09Derived C09DerivedProofs.
 Import ListNotations.
 
@@ -110,3 +166,341 @@ Theorem C09_precomputed_matrix_flip :
     m_entry (m_flip i j m) a b = m_entry m (tr i j a) (tr i j b).
 Proof. exact m_flip_spec. Qed.
 Print Assumptions C09_precomputed_matrix_flip.
+
+(* ===================== C. composition over an abstract flip-aware base matrix ===================== *)
+
+(* Every state reachable by any finite history from an empty cache of any capacity stacked on ANY base object
+   satisfying the laws: memory bound, accounting, and every cached cell / entry() = the base's ORIGINAL entry
+   function under the composed permutation. *)
+Theorem C09_composed_cache_sound :
+  forall (V B : Type) (M : MatOps V B) (ok : B -> Prop), flip_aware ok ->
+  forall b0 : B, ok b0 -> forall (mx : nat) (ops : list gop),
+    let n := bsize b0 in let s := grun (ginit b0 mx) ops in let p := cperm n ops in
+    gcsize s <= gcmax s /\ gcmax s = mx /\ gcsize s = tot (gents s) /\ NoDup (glru s) /\
+    (forall k, In k (glru s) <-> k < n /\ glinelen s k <> 0) /\
+    (forall k, glinelen s k <= n) /\
+    Permutation p (seq 0 n) /\
+    (forall k c, c < glinelen s k -> nth c (gline s k) gv = bentry b0 (nth k p 0) (nth c p 0)) /\
+    (forall a c, a < n -> c < n -> gcm_entry s a c = bentry b0 (nth a p 0) (nth c p 0)) /\
+    gerr s = false.
+Proof. intros V B M ok FA b0 OK0 mx ops. exact (composed_cache_sound ok FA b0 OK0 mx ops). Qed.
+Print Assumptions C09_composed_cache_sound.
+
+(* row(k,a,e) for any prefix length e after any history: at least e cells, all original entries under the
+   composed order, and the order is not touched by the request *)
+Theorem C09_composed_row_returns_original_entries :
+  forall (V B : Type) (M : MatOps V B) (ok : B -> Prop), flip_aware ok ->
+  forall b0 : B, ok b0 -> forall (mx : nat) (ops : list gop) (k a e : nat),
+    let s := grun (ginit b0 mx) ops in let p := cperm (bsize b0) ops in
+    gwf_op s (GRow k a e) = true ->
+    let s' := gstep s (GRow k a e) in
+    cperm (bsize b0) (ops ++ [GRow k a e]) = p /\ e <= glinelen s' k /\
+    forall c, c < e -> nth c (gline s' k) gv = bentry b0 (nth k p 0) (nth c p 0).
+Proof. intros V B M ok FA b0 OK0 mx ops k a e. exact (composed_row ok FA b0 OK0 mx ops k a e). Qed.
+Print Assumptions C09_composed_row_returns_original_entries.
+
+(* row(k,a,e,storage) const: defined (no write before the buffer) iff a <= cached length; then it writes
+   max(cached,e)-a cells, all of them original entries of columns a, a+1, ... *)
+Theorem C09_composed_const_row :
+  forall (V B : Type) (M : MatOps V B) (ok : B -> Prop), flip_aware ok ->
+  forall b0 : B, ok b0 -> forall (mx : nat) (ops : list gop) (k a e : nat),
+    let s := grun (ginit b0 mx) ops in let p := cperm (bsize b0) ops in
+    k < bsize b0 -> a <= e -> e <= bsize b0 ->
+    (gcm_row_const k a e s = None <-> glinelen s k < a) /\
+    forall l, gcm_row_const k a e s = Some l ->
+      length l = Nat.max (glinelen s k) e - a /\
+      forall c, c < length l -> nth c l gv = bentry b0 (nth k p 0) (nth (a + c) p 0).
+Proof. intros V B M ok FA b0 OK0 mx ops k a e. exact (composed_row_const ok FA b0 OK0 mx ops k a e). Qed.
+Print Assumptions C09_composed_const_row.
+
+Theorem C09_composed_two_rows_valid :
+  forall (V B : Type) (M : MatOps V B) (ok : B -> Prop), flip_aware ok ->
+  forall b0 : B, ok b0 -> forall (mx : nat) (ops : list gop) (i a0 a j c0 c : nat),
+    let s := grun (ginit b0 mx) ops in
+    i <> j -> gwf_op s (GRow i a0 a) = true ->
+    let s1 := gstep s (GRow i a0 a) in
+    gwf_op s1 (GRow j c0 c) = true ->
+    glinelen s1 i + c <= gcmax s ->
+    let s2 := gstep s1 (GRow j c0 c) in
+    gline s2 i = gline s1 i /\ a <= glinelen s2 i.
+Proof.
+  intros V B M ok FA b0 OK0 mx ops i a0 a j c0 c s. apply (C09CompProofs.two_rows_valid ok FA).
+  apply C09CompProofs.reachable_inv; assumption.
+Qed.
+Print Assumptions C09_composed_two_rows_valid.
+
+(* the base matrix alone: after any list of flips its entries are the original ones under the composed order *)
+Theorem C09_flip_aware_matrix_under_flips :
+  forall (V B : Type) (M : MatOps V B) (ok : B -> Prop), flip_aware ok ->
+  forall b0 : B, ok b0 -> forall fl : list (nat * nat),
+    let b := bflips fl b0 in let p := flips_perm (bsize b0) fl in
+    ok b /\ bsize b = bsize b0 /\ Permutation p (seq 0 (bsize b0)) /\
+    forall a c, a < bsize b0 -> c < bsize b0 -> bentry b a c = bentry b0 (nth a p 0) (nth c p 0).
+Proof.
+  intros V B M ok FA b0 OK0 fl. destruct (bflips_under ok FA b0 OK0 fl) as (A1 & A2 & _ & A3 & A4).
+  cbv zeta. split; [exact A1|]. split; [exact A2|]. split; [exact A3|exact A4].
+Qed.
+Print Assumptions C09_flip_aware_matrix_under_flips.
+
+(* PrecomputedMatrix<Matrix>: constructed from a base state whose matrix() is correct, flipped any number of
+   times (not forwarded to the base): entries and both row overloads = original entries under the composed
+   order; the table always holds exactly n*n values in rows of length n *)
+Theorem C09_precomputed_over_base_sound :
+  forall (V B : Type) (M : MatOps V B) (b0 : B), mat_ok b0 -> forall fl : list (nat * nat),
+    let n := bsize b0 in let m := pm_flips fl (pm_init b0) in let p := flips_perm n fl in
+    Permutation p (seq 0 n) /\
+    (forall a c, a < n -> c < n -> pm_entry m a c = bentry b0 (nth a p 0) (nth c p 0)) /\
+    (forall k a e, k < n -> a <= e -> e <= n ->
+       pm_row m k a e = map (fun c => bentry b0 (nth k p 0) (nth c p 0)) (seq a (e - a))) /\
+    pm_max_cache_size m = n * n /\ pm_size m = n /\ tot m = n * n.
+Proof.
+  intros V B M b0 MAT fl. cbv zeta.
+  destruct (pm_sound b0 MAT fl) as (_ & A1 & A2). destruct (pm_accounting b0 MAT fl) as (A3 & A4 & A5).
+  split; [exact A1|]. split; [exact A2|]. split; [intros k a e; apply (pm_row_sound b0 MAT fl k a e)|].
+  split; [exact A3|]. split; [exact A4|exact A5].
+Qed.
+Print Assumptions C09_precomputed_over_base_sound.
+
+(* ===================== D. memory clauses at the CachedMatrix level ===================== *)
+Theorem C09_composed_clear_accounting :
+  forall (V B : Type) (M : MatOps V B) (ok : B -> Prop), flip_aware ok ->
+  forall b0 : B, ok b0 -> forall (mx : nat) (ops : list gop),
+    let s' := gstep (grun (ginit b0 mx) ops) GClear in
+    gcm_cache_size s' = 0 /\ gcm_cached_lines s' = 0 /\ gcm_max_cache_size s' = mx /\
+    forall k, gcm_cache_row_size s' k = 0.
+Proof.
+  intros V B M ok FA b0 OK0 mx ops. cbv zeta. unfold gstep. simpl gwf_op. cbv iota.
+  destruct (clear_accounting ok (grun (ginit b0 mx) ops) (C09CompProofs.reachable_inv ok FA b0 mx ops OK0)) as (A1 & A2 & A3 & A4).
+  split; [exact A1|]. split; [exact A2|]. split; [|exact A4].
+  unfold gcm_max_cache_size. rewrite A3. rewrite (run_cmax ok FA) by (apply C09CompProofs.init_inv; assumption). reflexivity.
+Qed.
+Print Assumptions C09_composed_clear_accounting.
+
+(* setMaxCachedIndex(m): no value is freed or moved, the accounting is unchanged; the lines outside the
+   restricted range are the first eviction candidates *)
+Theorem C09_composed_setmax_accounting :
+  forall (V B : Type) (M : MatOps V B) (ok : B -> Prop), flip_aware ok ->
+  forall b0 : B, ok b0 -> forall (mx : nat) (ops : list gop) (m : nat),
+    let s := grun (ginit b0 mx) ops in
+    gwf_op s (GSetMax m) = true ->
+    let s' := gstep s (GSetMax m) in
+    gents s' = gents s /\ gcm_cache_size s' = gcm_cache_size s /\ gcm_max_cache_size s' = gcm_max_cache_size s /\
+    gcm_cached_lines s' = gcm_cached_lines s /\
+    exists front tail, glru s' = front ++ tail /\ (forall x, In x front -> x < m) /\ (forall x, In x tail -> m <= x).
+Proof.
+  intros V B M ok FA b0 OK0 mx ops m s W. cbv zeta. unfold gstep. rewrite W.
+  simpl in W. apply Nat.leb_le in W.
+  exact (set_max_accounting ok m s (C09CompProofs.reachable_inv ok FA b0 mx ops OK0) W).
+Qed.
+Print Assumptions C09_composed_setmax_accounting.
+
+Theorem C09_composed_flip_accounting :
+  forall (V B : Type) (M : MatOps V B) (ok : B -> Prop), flip_aware ok ->
+  forall b0 : B, ok b0 -> forall (mx : nat) (ops : list gop) (i j : nat),
+    let s := grun (ginit b0 mx) ops in
+    gwf_op s (GFlip i j) = true ->
+    let s' := gstep s (GFlip i j) in
+    gcm_cache_size s' = gcm_cache_size s /\ gcm_max_cache_size s' = gcm_max_cache_size s /\
+    gcm_cached_lines s' = gcm_cached_lines s /\
+    forall k, gcm_cache_row_size s' k = gcm_cache_row_size s (tr i j k).
+Proof.
+  intros V B M ok FA b0 OK0 mx ops i j s W. cbv zeta. unfold gstep. rewrite W.
+  simpl in W. apply andb_prop in W. destruct W as [W1 W2]. apply Nat.ltb_lt in W1, W2.
+  exact (flip_accounting ok FA i j s (C09CompProofs.reachable_inv ok FA b0 mx ops OK0) W1 W2).
+Qed.
+Print Assumptions C09_composed_flip_accounting.
+
+(* ===================== E. every class implements the interface ===================== *)
+Theorem C09_kernel_matrix_classes_are_flip_aware :
+  forall (k0 : nat -> nat -> Z),
+    flip_aware (M := kernel_ops k0) (fun _ => True) /\
+    flip_aware (M := reg_ops k0) reg_okP /\
+    (forall eq ne, flip_aware (M := mod_ops k0 eq ne) lab_okP) /\
+    flip_aware (M := exmod_ops k0) lab_okP /\
+    (forall (V B : Type) (M : MatOps V B) (b : B), flip_aware (M := blk_ops b) (blk_okP b) /\ blk_okP b (blk_init b)) /\
+    (forall (P : Type) (pd : P) (k : P -> P -> Z), flip_aware (M := dk_ops P pd k) (fun _ => True)) /\
+    (forall (V : Type) (ex : Z -> V) (vd : V) (dim : nat),
+       flip_aware (M := gk_ops V ex vd dim) gk_okP /\ forall pts, gk_okP (gk_init dim pts)).
+Proof.
+  intros k0. split; [apply kernel_flip_aware|]. split; [apply reg_flip_aware|].
+  split; [intros; apply mod_flip_aware|]. split; [apply exmod_flip_aware|].
+  split; [intros V B M b; split; [apply blk_flip_aware|apply blk_init_ok]|].
+  split; [intros; apply dk_flip_aware|].
+  intros V ex vd dim. split; [apply gk_flip_aware|apply gk_init_ok].
+Qed.
+Print Assumptions C09_kernel_matrix_classes_are_flip_aware.
+
+(* matrix(storage): correct for the unflipped KernelMatrix / Regularized / Modified (their matrix() reads the
+   dataset, not the flipped pointer table) and for every state of the classes that loop over entry()/row() *)
+Theorem C09_matrix_function_correct :
+  forall (k0 : nat -> nat -> Z) n d0 l0,
+    mat_ok (M := kernel_ops k0) (dinit n d0 l0) /\ mat_ok (M := reg_ops k0) (dinit n d0 l0) /\
+    (forall eq ne, mat_ok (M := mod_ops k0 eq ne) (dinit n d0 l0)) /\
+    (forall s, mat_ok (M := exmod_ops k0) s) /\
+    (forall (V B : Type) (M : MatOps V B) (b : B) m, mat_ok (M := blk_ops b) m) /\
+    (forall (P : Type) (pd : P) (k : P -> P -> Z) s, mat_ok (M := dk_ops P pd k) s) /\
+    (forall (V : Type) (ex : Z -> V) (vd : V) (dim : nat) s, mat_ok (M := gk_ops V ex vd dim) s).
+Proof.
+  intros k0 n d0 l0. split; [apply kernel_mat_ok|]. split; [apply reg_mat_ok|].
+  split; [intros; apply mod_mat_ok|]. split; [apply exmod_mat_ok|].
+  split; [intros; apply blk_mat_ok|]. split; [intros; apply dk_mat_ok|intros; apply gk_mat_ok].
+Qed.
+Print Assumptions C09_matrix_function_correct.
+
+(* the four blocks of BlockMatrix2x2 are copies of the base matrix *)
+Theorem C09_block_matrix_entries :
+  forall (V B : Type) (M : MatOps V B) (b : B) i j, i < 2 * bsize b -> j < 2 * bsize b ->
+    blk_entry b (blk_init b) i j = bentry b (i mod bsize b) (j mod bsize b).
+Proof. intros V B M b i j. exact (blk_init_entry b i j). Qed.
+Print Assumptions C09_block_matrix_entries.
+
+(* CachedMatrix<RegularizedKernelMatrix>: cells held after any history and cells returned by any row request are
+   the kernel values of the ORIGINAL examples now at (k,c) plus, on the diagonal, that example's ORIGINAL modifier *)
+Theorem C09_cached_regularized_matrix_sound :
+  forall (k0 : nat -> nat -> Z) (n : nat) (d0 : list Z) (l0 : list nat), length d0 = n ->
+  forall (mx : nat) (ops : list gop),
+    let s := grun (M := reg_ops k0) (ginit (M := reg_ops k0) (dinit n d0 l0) mx) ops in let p := cperm n ops in
+    gcsize s <= mx /\ gcsize s = tot (gents s) /\ Permutation p (seq 0 n) /\
+    (forall k c, c < glinelen s k ->
+       nth c (gline s k) 0%Z = (k0 (orig p k) (orig p c) + (if Nat.eqb k c then nth (orig p k) d0 0 else 0))%Z) /\
+    (forall k a e, gwf_op (M := reg_ops k0) s (GRow k a e) = true ->
+       let s' := gstep (M := reg_ops k0) s (GRow k a e) in
+       forall c, c < e ->
+       nth c (gline s' k) 0%Z = (k0 (orig p k) (orig p c) + (if Nat.eqb k c then nth (orig p k) d0 0 else 0))%Z).
+Proof. exact cached_regularized_sound. Qed.
+Print Assumptions C09_cached_regularized_matrix_sound.
+
+(* PrecomputedMatrix<DifferenceKernelMatrix>, linear kernel, any batch structure of the dataset: after any flips
+   the table holds the Gram matrix of the difference features of the pairs now at (a,c) *)
+Theorem C09_precomputed_difference_matrix_sound :
+  forall (dim : nat) (bs : list (list (list Z))) (pairs : list (nat * nat)),
+    pairs_ok (length (concat bs)) pairs -> forall fl : list (nat * nat),
+    let tab := pm_flips (M := dk_ops (list Z) [] (lin dim)) fl (pm_init (M := dk_ops (list Z) [] (lin dim)) (dk_init (list Z) bs pairs)) in
+    let p := flips_perm (length pairs) fl in
+    Permutation p (seq 0 (length pairs)) /\ pm_max_cache_size tab = length pairs * length pairs /\
+    forall a c, a < length pairs -> c < length pairs ->
+      pm_entry (M := dk_ops (list Z) [] (lin dim)) tab a c =
+      zsum dim (fun t => (dfeat bs pairs (orig p a) t * dfeat bs pairs (orig p c) t)%Z).
+Proof. exact precomputed_difference_sound. Qed.
+Print Assumptions C09_precomputed_difference_matrix_sound.
+
+(* CachedMatrix<GaussianKernelMatrix> with an abstract exp: every cached cell is ex(|x_k - x_c|^2) of the ORIGINAL
+   points now at (k,c) *)
+Theorem C09_cached_gaussian_matrix_sound :
+  forall (V : Type) (ex : Z -> V) (vd : V) (dim : nat) (pts : list (list Z)) (mx : nat) (hist : list gop),
+    let s := grun (M := gk_ops V ex vd dim) (ginit (M := gk_ops V ex vd dim) (gk_init dim pts) mx) hist in
+    let p := cperm (length pts) hist in
+    gcsize s <= mx /\ Permutation p (seq 0 (length pts)) /\
+    forall k c, c < glinelen s k ->
+      nth c (gline s k) vd =
+      ex (zsum dim (fun t => ((nth t (nth (orig p k) pts []) 0 - nth t (nth (orig p c) pts []) 0) *
+                              (nth t (nth (orig p k) pts []) 0 - nth t (nth (orig p c) pts []) 0))%Z)).
+Proof. exact cached_gaussian_sound. Qed.
+Print Assumptions C09_cached_gaussian_matrix_sound.
+
+(* ===================== F. datasets, Difference / Gaussian / PartlyPrecomputed ===================== *)
+Theorem C09_batch_sizes :
+  forall npts mb l, batch_sizes npts mb = Some l ->
+    list_sum l = npts /\ 0 < npts /\ exists opt, 0 < opt /\ forall s, In s l -> s = opt \/ s = S opt.
+Proof. exact batch_sizes_spec. Qed.
+Print Assumptions C09_batch_sizes.
+
+Theorem C09_dataview_lookup :
+  forall (P : Type) (pd : P) (bs : list (list P)) (p : nat), p < length (concat bs) ->
+    elem P pd bs (nth p (view_index P bs) (0, 0)) = nth p (concat bs) pd.
+Proof. exact view_lookup. Qed.
+Print Assumptions C09_dataview_lookup.
+
+Theorem C09_difference_matrix_entries :
+  forall (P : Type) (pd : P) (k : P -> P -> Z) (bs : list (list P)) (pairs : list (nat * nat)) (i j : nat),
+    let pts := concat bs in
+    pairs_ok (length pts) pairs -> i < length pairs -> j < length pairs ->
+    let s_ x := nth (fst (nth x pairs (0, 0))) pts pd in
+    let g_ x := nth (snd (nth x pairs (0, 0))) pts pd in
+    dk_entry P pd k (dk_init P bs pairs) i j = (k (g_ i) (g_ j) - k (g_ i) (s_ j) - k (s_ i) (g_ j) + k (s_ i) (s_ j))%Z.
+Proof. exact dk_init_entry. Qed.
+Print Assumptions C09_difference_matrix_entries.
+
+Theorem C09_difference_linear_gram_symmetric_psd :
+  forall (dim : nat) (bs : list (list (list Z))) (pairs : list (nat * nat)),
+    pairs_ok (length (concat bs)) pairs ->
+    let e := dk_entry (list Z) [] (lin dim) (dk_init (list Z) bs pairs) in let m := length pairs in
+    (forall i j, i < m -> j < m -> e i j = zsum dim (fun t => (dfeat bs pairs i t * dfeat bs pairs j t)%Z)) /\
+    (forall i j, i < m -> j < m -> e i j = e j i) /\
+    (forall c : nat -> Z, (0 <= zsum m (fun i => zsum m (fun j => c i * c j * e i j)))%Z).
+Proof.
+  intros dim bs pairs OK. cbv zeta. split; [apply dk_linear_gram; exact OK|].
+  split; [apply dk_linear_symmetric; exact OK|apply dk_linear_psd; exact OK].
+Qed.
+Print Assumptions C09_difference_linear_gram_symmetric_psd.
+
+Theorem C09_gaussian_distance_formula :
+  forall (dim : nat),
+    (forall pts, gk_norms_ok dim (gk_init dim pts)) /\
+    (forall i j s, gk_norms_ok dim s -> i < gk_size s -> j < gk_size s -> gk_norms_ok dim (gk_flip i j s)) /\
+    (forall s i j, gk_norms_ok dim s -> i < gk_size s -> j < gk_size s ->
+       gk_dist dim s i j =
+       zsum dim (fun t => ((nth t (nth i (g_x s) []) 0 - nth t (nth j (g_x s) []) 0) *
+                           (nth t (nth i (g_x s) []) 0 - nth t (nth j (g_x s) []) 0))%Z)).
+Proof.
+  intros dim. split; [apply gk_init_norms|]. split; [apply gk_flip_norms|apply gk_dist_spec].
+Qed.
+Print Assumptions C09_gaussian_distance_formula.
+
+Theorem C09_partly_precomputed_sound :
+  forall (V B : Type) (M : MatOps V B) (w cb : nat) (b : B),
+    let n := bsize b in
+    match pp_init w cb b with
+    | PPok tab =>
+        n * w <> 0 /\ length tab = Nat.min n (cb / (n * w)) /\ 1 <= length tab /\
+        length tab * (n * w) <= cb /\ pp_max_cache_size b tab * w <= cb /\
+        (forall k, pp_is_cached tab k = true <-> k < length tab) /\
+        (forall i j, i < n -> j < n -> pp_entry b tab i j = bentry b i j) /\
+        (forall k, k < n -> pp_row b tab k = map (bentry b k) (seq 0 n))
+    | PPexc => n * w <> 0 /\ cb < n * w
+    | PPdiv0 => n * w = 0
+    end.
+Proof. intros V B M w cb b. exact (pp_init_spec w cb b). Qed.
+Print Assumptions C09_partly_precomputed_sound.
+
+(* ===================== satisfiability of the hypotheses (concrete instances) ===================== *)
+Definition ex_k0 : nat -> nat -> Z := fun a b => (Z.of_nat (a + 1) * Z.of_nat (b + 1))%Z.
+Definition ex_b0 : dm := dinit 3 [5; 6; 7]%Z [0; 1; 0].
+
+(* CachedMatrix<RegularizedKernelMatrix>, capacity 4: the hypotheses hold, the flip moves the cached line, a
+   well-formed row request returns the entries under the composed order [2;1;0] and evicts the older line; the
+   const overload is undefined exactly for a start beyond the cached length *)
+Example C09_composed_example :
+  let s1 := grun (M := reg_ops ex_k0) (ginit (M := reg_ops ex_k0) ex_b0 4) [GRow 0 0 3; GFlip 0 2] in
+  reg_okP ex_b0 /\ gline s1 2 = [3; 2; 6]%Z /\ cperm 3 [GRow 0 0 3; GFlip 0 2] = [2; 1; 0] /\
+  gwf_op (M := reg_ops ex_k0) s1 (GRow 1 0 2) = true /\
+  gline (gstep (M := reg_ops ex_k0) s1 (GRow 1 0 2)) 1 = [6; 10]%Z /\
+  glinelen (gstep (M := reg_ops ex_k0) s1 (GRow 1 0 2)) 2 = 0 /\
+  gcm_row_const (M := reg_ops ex_k0) 2 1 3 s1 = Some [2; 6]%Z /\
+  gcm_row_const (M := reg_ops ex_k0) 1 1 3 s1 = None.
+Proof. vm_compute. repeat split; reflexivity. Qed.
+
+(* five points in batches of sizes 2,2,1 (maximum batch size 2) resp. 3,2 (maximum 4); three pairs; the
+   precomputed difference matrix after one flip *)
+Definition ex_pts : list (list Z) := [[1; 2]; [0; -1]; [3; 3]; [2; 0]; [-1; 1]]%Z.
+Definition ex_bs : list (list (list Z)) := split_batches _ [2; 2; 1] ex_pts.
+Definition ex_pairs : list (nat * nat) := [(0, 4); (1, 2); (4, 4)].
+Example C09_difference_example :
+  batch_sizes 5 2 = Some [2; 2; 1] /\ batch_sizes 5 4 = Some [3; 2] /\
+  concat ex_bs = ex_pts /\ view_index _ ex_bs = [(0, 0); (0, 1); (1, 0); (1, 1); (2, 0)] /\
+  pairs_ok (length (concat ex_bs)) ex_pairs /\
+  dk_mat _ [] (lin 2) (dk_init _ ex_bs ex_pairs) = [[5; -10; 0]; [-10; 25; 0]; [0; 0; 0]]%Z /\
+  pm_flips (M := dk_ops _ [] (lin 2)) [(0, 2)] (pm_init (M := dk_ops _ [] (lin 2)) (dk_init _ ex_bs ex_pairs))
+    = [[0; 0; 0]; [0; 25; -10]; [0; -10; 5]]%Z.
+Proof.
+  split; [reflexivity|]. split; [reflexivity|]. split; [reflexivity|]. split; [reflexivity|].
+  split; [|split; vm_compute; reflexivity].
+  intros sg H. simpl in H. destruct H as [<-|[<-|[<-|[]]]]; simpl; split; repeat constructor.
+Qed.
+
+Example C09_gaussian_partly_example :
+  gk_dist 2 (gk_flip 0 2 (gk_init 2 ex_pts)) 0 1 = 25%Z /\ g_n (gk_init 2 ex_pts) = [5; 1; 18; 4; 2]%Z /\
+  pp_init (M := kernel_ops ex_k0) 8 50 ex_b0 = PPok [[1; 2; 3]; [2; 4; 6]]%Z /\
+  pp_init (M := kernel_ops ex_k0) 8 23 ex_b0 = PPexc /\
+  pp_init (M := kernel_ops ex_k0) 8 23 (dinit 0 [] []) = PPdiv0.
+Proof. vm_compute. repeat split; reflexivity. Qed.
